@@ -24,10 +24,11 @@ import dataclasses
 import numpy as np
 
 SKIP_METHODS = {"__init__", "__post_init__", "update", "normalize", "update_Sigma", "update_phi",
-                "compute_lnZ", "invert_lambda", "compute_mu", "_prepare_integration", "sample",
+                "compute_lnZ", "invert_lambda", "compute_mu", "_prepare_integration",
                 "from_dict", "to_dict", "slice", "R", "D", "Dx", "Dy"}
-FIRST = 2      # the first FIRST boundary calls of every (Class.method[flags]) key are re-executed
-EVERY = 25     # ... and every EVERY-th one afterwards
+FIRST = 2      # numpy variant: the first FIRST boundary calls of every (Class.method[flags]) key
+FIRST_INT = 8  # int variant: the first FIRST_INT calls (it cycles through the roundable inputs)
+EVERY = 25     # ... and every EVERY-th one afterwards (both variants)
 TOL = 1e-8
 
 _counts = {}
@@ -288,7 +289,7 @@ def _get(self, args, kwargs, cand):
 def selected(key):
     n = _counts.get(key, 0) + 1
     _counts[key] = n
-    return n <= FIRST or n % EVERY == 0
+    return n <= FIRST_INT or n % EVERY == 0
 
 
 def clone_state(o, depth=0):
@@ -316,12 +317,16 @@ def run(fn, name, key, res, pre, state, report, count):
 
     rec = state.rec
     self0, args0, kwargs0 = pre
+    n_call = _counts.get(key, 0)
     # ---- numpy variant
     made = []
+    if not (n_call <= FIRST or n_call % EVERY == 0):
+        made = None
     try:
-        s_np = clone_np(self0, made)
-        a_np = clone_np(args0, made)
-        k_np = clone_np(kwargs0, made)
+        if made is not None:
+            s_np = clone_np(self0, made)
+            a_np = clone_np(args0, made)
+            k_np = clone_np(kwargs0, made)
     except Exception:
         made = None
     if made:
